@@ -119,9 +119,44 @@ def run_hist(sx, cfg, env):
 
 def _run_hist(sx, cfg, sm):
     ref = isotp_ref.RefReassembler([RX])
+    frames, outs = [], []
     for i, n in enumerate(cfg["lens"]):
         fr = sx.bytes(f"f{i}", n)
-        _feed(sx, sm, ref, fr, f"f{i}")
+        frames.append(fr)
+        outs += _feed(sx, sm, ref, fr, f"f{i}")
+    if not sx.sym and not cfg.get("active") and not cfg.get("verbose"):
+        _check_text_logs(sx, frames, outs)
+
+
+def _check_text_logs(sx, frames, outs):
+    """witness level (concrete replay of each path's model): the same history as a candump log
+    file read through read_telegrams gives the same telegrams, and a log whose lines are cut off
+    in the middle of a byte ("truncated frames") is still processed without an exception"""
+    import asyncio
+    import contextlib
+    import io
+    import odxtools.isotp_state_machine as iso
+    if any(len(f) == 0 for f in frames):
+        return  # the text formats cannot express an empty frame
+
+    def read(text):
+        sm = iso.IsoTpStateMachine([RX])
+
+        async def go():
+            return [(t[0], bytes(t[1])) async for t in sm.read_telegrams(io.StringIO(text))]
+        with contextlib.redirect_stdout(io.StringIO()), contextlib.redirect_stderr(io.StringIO()):
+            return asyncio.run(go())
+    lines = [f"(1600000000.000000) can0 {RX:03X}#" + bytes(f).hex().upper() for f in frames]
+    try:
+        got = read("\n".join(lines) + "\n")
+    except Exception:  # noqa: BLE001
+        sx.fail("witness:log-file-processing-never-raises")
+        return
+    sx.require(got == [(i, bytes(d)) for i, d in outs], "witness:log-file-gives-same-telegrams")
+    try:
+        read("\n".join(ln[:-1] for ln in lines) + "\n")
+    except Exception:  # noqa: BLE001
+        sx.fail("witness:truncated-log-line-never-raises")
 
 
 def _arbitrary_state(sx, sm, ref, m):
